@@ -145,7 +145,7 @@ Section Scan.
      to wait for, in the order the code pushes them.  The recursion through
      ports without a message is bounded by [fuel]; None = out of fuel (the
      real recursion does not end: cyclic references in the metadata). *)
-  Fixpoint scan_deps (fuel : nat) (cur : str) : option (list str) :=
+  Fixpoint scan_deps (fuel : nat) (orig cur : str) : option (list str) :=
     match fuel with
     | O => None
     | S f =>
@@ -160,8 +160,11 @@ Section Scan.
                    (fun acc e =>
                       match acc, rel2abs e c with
                       | Some l, Some a =>
-                          if has_key a then Some (l ++ [a])
-                          else match scan_deps f a with
+                          (* a port inside the sub-tree it enables: neither the message
+                             itself nor the address this scan started from is a dependency *)
+                          if str_eqb a orig || str_eqb a cur then Some l
+                          else if has_key a then Some (l ++ [a])
+                          else match scan_deps f orig a with
                                | Some l' => Some (l ++ l')
                                | None => None
                                end
@@ -207,7 +210,7 @@ Section Sort.
     let keys := map_keys ms in
     fold_left
       (fun acc k =>
-         match acc, scan_deps apropos keys fuel k, index_of k ms with
+         match acc, scan_deps apropos keys fuel k k, index_of k ms with
          | Some l, Some ds, Some o =>
              Some (l ++ flat_map (fun d => match index_of d ms with
                                            | Some i => [(i, o)]
